@@ -6,7 +6,7 @@
    Witness: with the guard the implementation uses ("prefix": absolute names only) TLC must REFUTE Confined.
 2. spec -> code: every input TLC emits (archives of <= 2/3 members incl. symlink / hardlink members, manifests of <= 2 entries,
    sequences of <= 2 staging operations) is built for real (tarfile, directories, manifest dict, a real experiment for
-   Job.stageIn) in a sandbox that mirrors the model's tree, nested 7 directories deep inside the scratch directory, and the
+   Job.stageIn) in a sandbox that mirrors the model's tree, nested 19 directories deep inside the scratch directory, and the
    REAL code is run: StageReference (:extract/:copy/:link), Job.stageIn, ExperimentPackage.expandPackageToDirectory.
    Oracle: (a) always: the recursive listing (type, size, mode, mtime, link target, content) of everything in the sandbox
    outside the target is unchanged; (b) an input the specification classifies hostile must be rejected with
@@ -25,7 +25,7 @@ from .. import tlc
 
 PID = "C18"
 REAL = {"b": "tb"}
-SPARE = ["s1", "s2", "s3", "s4"]          # directories between the sandbox box and the model's root: `..` escapes end here
+SPARE = ["s%02d" % i for i in range(1, 17)]   # directories between the sandbox box and the model's root: `..` escapes end here
 
 
 def _cfg(path, body):
@@ -187,7 +187,10 @@ def diff(before, after):
 
 
 def updots(case):
-    return sum(1 for m in case["inp"] for s in list(m["n"]) + (list(m["t"]) if isinstance(m["t"], list) else []) if s == "..")
+    """upper bound on how many levels above the target one path resolution of this input can climb: the `..` of the name
+    plus, for every segment of the name, the `..` of all link targets it may traverse"""
+    links = sum(1 for m in case["inp"] if isinstance(m["t"], list) for s in m["t"] if s == "..")
+    return max([sum(1 for s in m["n"] if s == "..") + len(m["n"]) * links for m in case["inp"]] + [0])
 
 
 # =====================================================================================================================
@@ -318,8 +321,6 @@ def real_stagein(sb, case, env, n):
     """the same staging sequence through a real Job.stageIn of a real experiment (producers p, q in stage 0)"""
     from .. import realenv
     E = env["E"]
-    loc = os.path.join(sb.root, "l2", "inst%d" % n)
-    os.makedirs(loc)
     refs = []
     for m in case["inp"]:
         if m["t"] == "arch":
@@ -328,6 +329,9 @@ def real_stagein(sb, case, env, n):
             refs.append("stage0.%s/%s:%s" % (SRC[m["t"]][0], SRC[m["t"]][1], m["k"]))
     if len(set(refs)) != len(refs):
         return None
+    sb.ninst = getattr(sb, "ninst", 0) + 1
+    loc = os.path.join(sb.root, "l2", "inst%d" % sb.ninst)
+    os.makedirs(loc)
     flowir = {"components": [realenv.simple_component("p", 0), realenv.simple_component("q", 0),
                              realenv.simple_component("c", 1, args=" ".join(refs),
                                                       references=refs)]}
@@ -420,7 +424,7 @@ def execute(chk, mode, cases, sb, env, found, stagein=False):
     fn = {"archive": real_archive, "manifest": real_manifest, "stage": real_stage}[mode]
     n = 0
     for case in cases:
-        if updots(case) > len(SPARE) + 2:
+        if updots(case) > len(SPARE):
             raise MachineryError("input with %d `..` segments exceeds the sandbox nesting" % updots(case))
         res = fn(sb, case, env)
         chk.evaluated((mode, json.dumps(case["inp"], sort_keys=True)))
@@ -482,6 +486,9 @@ def run(tier, only=None, chk=None):
     os.makedirs(gen)
     try:
         return _run(chk, thorough, gen, only)
+    except BaseException:
+        shutil.rmtree(chk.scratch, ignore_errors=True)        # finish() removes it on the normal path
+        raise
     finally:
         shutil.rmtree(gen, ignore_errors=True)
 
